@@ -122,6 +122,8 @@ func checkC10(p *Program, r *Result) {
 	checkReadWidths(p, r, rfns)
 	checkLoopProgress(p, r, rfns)
 	checkNoUnguardedRecursion(p, r, scope)
+	r.rule("C10.t", "constant-length tables have room for every value their index type admits", 1)
+	checkConstTables(p, r, "C10.t", rfns)
 	r.rule("C10.r", "the source is consumed only through full-read primitives (a hand-written Read loop can spin on (0, EOF))", 15)
 	for _, fn := range rfns {
 		checkRawReadsAs(p, r, fn, "C10.r")
